@@ -973,6 +973,23 @@ class QuicConnection:
                 )
                 return
 
+            # discard packets which were already processed, or which are too
+            # old for us to know, see RFC 9000 section 12.3
+            if (
+                packet_number < space.ack_queue_start
+                or packet_number in space.ack_queue
+            ):
+                if self._quic_logger is not None:
+                    self._quic_logger.log_event(
+                        category="transport",
+                        event="packet_dropped",
+                        data={
+                            "trigger": "duplicate",
+                            "raw": {"length": header.packet_length},
+                        },
+                    )
+                continue
+
             # log packet
             quic_logger_frames: Optional[list[dict]] = None
             if self._quic_logger is not None:
@@ -2376,6 +2393,8 @@ class QuicConnection:
         """
         if delivery == QuicDeliveryState.ACKED:
             space.ack_queue.subtract(0, highest_acked + 1)
+            if highest_acked + 1 > space.ack_queue_start:
+                space.ack_queue_start = highest_acked + 1
 
     def _on_connection_limit_delivery(
         self, delivery: QuicDeliveryState, limit: Limit
